@@ -88,7 +88,12 @@ func (ctx *IntermediateMetricContext) MakePlan() error {
 		return constants.ErrDatabaseNotExist
 	}
 
-	calcTimeRangeAndInterval(ctx.statement, databaseCfg)
+	// the root has already planned time range/interval/storage interval of the statement it sends
+	// (planning the planned statement again is not idempotent: auto group by time, range lengths next to
+	// an auto interval threshold), only plan here when the sender has not (root without database config).
+	if ctx.statement.StorageInterval <= 0 {
+		calcTimeRangeAndInterval(ctx.statement, databaseCfg)
+	}
 
 	payload, _ := ctx.statement.MarshalJSON()
 	for _, physicalPlan := range physicalPlans {
